@@ -24,6 +24,9 @@ def setFlag (fl : Flags) (kv : String) : Flags :=
   | ["ghostbounds", v] => { fl with ghostBounds := bit v }
   | ["restore", v] => { fl with windFailureRestores := bit v }
   | ["bundleclock", v] => { fl with bundleClockChecked := bit v }
+  | ["smrej", v] => { fl with spendMissingRejected := bit v }
+  | ["smrejbrowser", v] => { fl with spendMissingRejectedBrowser := bit v }
+  | ["smrejspv", v] => { fl with spendMissingRejectedSpv := bit v }
   | _ => fl
 
 def parseLim (s : String) : Option Lim :=
@@ -155,6 +158,7 @@ def answer (fl : Flags) (n : Node) (e : Event) : String :=
 def stepLine (fl : Flags) (line : String) : Flags × String :=
   match line.trimAscii.toString.splitOn " " with
   | "flags" :: kvs => (kvs.foldl setFlag fl, "-")
+  | "sweep" :: _ => (fl, "-")   -- monitor-only line of the hostile transaction shape sweep (recorded, not compared)
   | "step" :: rest =>
     let summary := rest.takeWhile (· != "|")
     let ev := (rest.dropWhile (· != "|")).drop 1
